@@ -827,6 +827,29 @@ class FixedArray
 };
 
 //
+// Array of one member (of type S) of every element of 'a', sharing storage
+// with 'a': 'member0' is the address of that member within element 0 of the
+// underlying storage (a.unchecked_direct_index(0)), 'factor' is
+// sizeof(T)/sizeof(S).  For a masked reference the result is a masked
+// reference to the same elements.
+//
+template <class S, class T>
+FixedArray<S>
+memberView (FixedArray<T>& a, S* member0, Py_ssize_t factor)
+{
+    if (!a.isMaskedReference())
+        return FixedArray<S> (member0, a.len(), factor * a.stride(),
+                              a.handle(), a.writable());
+
+    FixedArray<S>   all (member0, a.unmaskedLength(), factor * a.stride(),
+                         a.handle(), a.writable());
+    FixedArray<int> mask (int (0), a.unmaskedLength());
+    for (size_t i = 0; i < size_t (a.len()); ++i)
+        mask.direct_index (a.raw_ptr_index (i)) = 1;
+    return FixedArray<S> (all, mask);
+}
+
+//
 // Helper struct for arary indexing  with a known compile time length
 //
 template <class Container, class Data>
